@@ -289,10 +289,10 @@ def check_histories(ctx, exe, hs, workers=1, stop_on_first=True):
             continue
         if io != mo:
             k = vlib.diff_streams(io, mo)
+            if any(b.startswith('correspondence ring:') for b in ctx.broken):
+                continue                       # one witness of the mismatch is enough; keep looking for a property violation
             ctx.broken.append(f'correspondence ring: model differs from implementation (implementation satisfies the FIFO reference) on {lines_of(h)}: '
                               f'at output {k}: model={mo[k:k + 2] if k is not None else None} impl={io[k:k + 2] if k is not None else None}')
-            if stop_on_first:
-                return agreed
             continue
         agreed += 1
     return agreed
